@@ -1,1 +1,240 @@
-fn main(){}
+//! hctl-sim: deterministic simulation harness for biodivine-hctl-model-checker.
+//!
+//!   hctl-sim run    --prop P --seed S --worker W --workers N --max-runs M --time-ms T
+//!                   --out FILE --replay-dir DIR --sandbox DIR --tier quick|thorough [--samples K]
+//!   hctl-sim replay FILE [--sandbox DIR]
+//!   hctl-sim gen    --prop P --seed S --index I
+//!   hctl-sim cli ... (engine B, see cli.rs)
+//!
+//! Exit codes: 0 finished; 2 harness error. Verdicts are printed as JSON lines; the `check`
+//! driver turns them into VIOLATION / KNOWN-FINDING lines and the process exit status.
+
+mod ast;
+mod c04;
+mod c10;
+mod c12;
+mod c16;
+mod case;
+mod evalx;
+mod exec;
+mod fgen;
+mod prng;
+mod scen;
+mod simenv;
+mod world;
+
+use case::Case;
+use serde_json::{Value, json};
+use std::collections::HashMap;
+use std::io::Write;
+use std::time::{Duration, Instant};
+
+fn arg<'a>(args: &'a [String], name: &str) -> Option<&'a str> {
+    args.iter().position(|a| a == name).and_then(|i| args.get(i + 1)).map(|s| s.as_str())
+}
+fn arg_u64(args: &[String], name: &str, dflt: u64) -> u64 {
+    arg(args, name).and_then(|s| s.parse().ok()).unwrap_or(dflt)
+}
+
+pub const CLOCK_SCRIPT: &str = "1700000000000:7";
+
+/// Fixed warm-up so that lazily initialised statics of the dependencies are identical in every
+/// process (worker, replay) before the first simulated run.
+fn warm_up() {
+    let r = exec::isolated(0, || {
+        let w = world::World {
+            model: "a -> b\nb -| a\n$a: !b\n$b: a\n".to_string(),
+            k: 1,
+            context: Default::default(),
+        };
+        let env = w.build()?;
+        let f = ast::F::hyb("!", "x", None, ast::F::un("AX", ast::F::var("x")));
+        evalx::alone(&env, &f).map(|_| ())
+    });
+    if !matches!(r, exec::Outcome::Ok(())) {
+        eprintln!("harness error: warm-up failed: {}", r.describe());
+        std::process::exit(2);
+    }
+}
+
+fn run_case(case: &Case, hash_seed: u64, sandbox: &str) -> Result<scen::Report, String> {
+    simenv::clock(CLOCK_SCRIPT);
+    simenv::io(sandbox, "");
+    let out = exec::isolated(hash_seed, || {
+        // draw this thread's hash keys now, before any nested reseed
+        let _m: HashMap<u8, u8> = HashMap::new();
+        Ok(case.check(sandbox))
+    });
+    match out {
+        exec::Outcome::Ok(r) => Ok(r),
+        o => Err(format!("harness error inside check: {}", o.describe())),
+    }
+}
+
+fn cmd_run(args: &[String]) -> i32 {
+    let prop = arg(args, "--prop").expect("--prop").to_string();
+    let seed = arg_u64(args, "--seed", 1);
+    let worker = arg_u64(args, "--worker", 0);
+    let workers = arg_u64(args, "--workers", 1).max(1);
+    let max_runs = arg_u64(args, "--max-runs", 100);
+    let time_ms = arg_u64(args, "--time-ms", 10_000);
+    let samples = arg_u64(args, "--samples", 2);
+    let tier = arg(args, "--tier").unwrap_or("quick").to_string();
+    let out_path = arg(args, "--out").expect("--out");
+    let replay_dir = arg(args, "--replay-dir").expect("--replay-dir").to_string();
+    let sandbox = arg(args, "--sandbox").expect("--sandbox").to_string();
+    let min_budget = Duration::from_millis(arg_u64(args, "--minimise-ms", 60_000));
+    let keep_going = args.iter().any(|a| a == "--keep-going");
+    let _ = std::fs::create_dir_all(&sandbox);
+    let mut out = std::io::BufWriter::new(std::fs::File::create(out_path).expect("out file"));
+    let start = Instant::now();
+    let mut done = 0u64;
+    let mut idx = worker;
+    while done < max_runs && start.elapsed() < Duration::from_millis(time_ms) {
+        let rs = prng::run_seed(seed, idx);
+        let case = Case::generate(&prop, rs, &tier);
+        let hash_seed = prng::Rng::new(rs).fork("run.hash").next_u64();
+        let t0 = Instant::now();
+        let rep = match run_case(&case, hash_seed, &sandbox) {
+            Ok(r) => r,
+            Err(e) => {
+                let _ = writeln!(out, "{}", json!({"i": idx, "harness_error": e, "case": case.to_json()}));
+                let _ = out.flush();
+                return 2;
+            }
+        };
+        let mut line = json!({"i": idx, "run_seed": rs, "hash_seed": hash_seed, "report": rep.to_json(), "ms": t0.elapsed().as_millis() as u64});
+        if done < samples {
+            line["sample"] = case.to_json();
+        }
+        if let Some(v) = &rep.violation {
+            // minimise, then write the replay file
+            let (small, steps) = case::minimise(&case, &v.oracle, &sandbox, min_budget);
+            let rep2 = run_case(&small, hash_seed, &sandbox).unwrap_or_default();
+            let (final_case, final_rep) = if rep2.violation.as_ref().map(|x| &x.oracle) == Some(&v.oracle) {
+                (small, rep2)
+            } else {
+                (case.clone(), rep.clone())
+            };
+            let fv = final_rep.violation.clone().unwrap();
+            let _ = std::fs::create_dir_all(&replay_dir);
+            let path = format!("{replay_dir}/{prop}-{seed}-{idx}.json");
+            let file = json!({
+                "property": prop, "seed": seed, "index": idx, "hash_seed": hash_seed, "tier": tier,
+                "case": final_case.to_json(),
+                "expect": {"oracle": fv.oracle, "detail": fv.detail, "event_hash": format!("{:016x}", final_rep.event_hash())},
+                "minimise_steps": steps,
+                "original_case": case.to_json(),
+            });
+            std::fs::write(&path, serde_json::to_string_pretty(&file).unwrap()).expect("write replay");
+            line["violation"] = json!({"oracle": fv.oracle, "detail": fv.detail, "replay": path, "case": final_case.to_json()});
+            let _ = writeln!(out, "{line}");
+            let _ = out.flush();
+            if !keep_going {
+                return 0;
+            }
+        } else {
+            let _ = writeln!(out, "{line}");
+        }
+        done += 1;
+        idx += workers;
+    }
+    let _ = out.flush();
+    0
+}
+
+fn cmd_replay(args: &[String]) -> i32 {
+    let path = &args[0];
+    let sandbox = arg(args, "--sandbox").map(|s| s.to_string()).unwrap_or_else(|| "/verif/.work/replay".to_string());
+    let _ = std::fs::create_dir_all(&sandbox);
+    let text = match std::fs::read_to_string(path) {
+        Ok(t) => t,
+        Err(e) => {
+            eprintln!("harness error: cannot read {path}: {e}");
+            return 2;
+        }
+    };
+    let v: Value = match serde_json::from_str(&text) {
+        Ok(v) => v,
+        Err(e) => {
+            eprintln!("harness error: {path}: {e}");
+            return 2;
+        }
+    };
+    if v["case"]["engine"].as_str() == Some("cli") || v["engine"].as_str() == Some("cli") {
+        eprintln!("harness error: cli replay files are replayed by `check replay` (engine B)");
+        return 2;
+    }
+    let case = match Case::from_json(&v["case"]) {
+        Ok(c) => c,
+        Err(e) => {
+            eprintln!("harness error: {path}: {e}");
+            return 2;
+        }
+    };
+    let hash_seed = v["hash_seed"].as_u64().unwrap_or(0);
+    let rep = match run_case(&case, hash_seed, &sandbox) {
+        Ok(r) => r,
+        Err(e) => {
+            eprintln!("{e}");
+            return 2;
+        }
+    };
+    let eh = format!("{:016x}", rep.event_hash());
+    if args.iter().any(|a| a == "--verbose") {
+        for e in &rep.events {
+            eprintln!("event: {e}");
+        }
+        eprintln!("probes: {:?}", rep.probes);
+    }
+    match &rep.violation {
+        Some(viol) => {
+            println!(
+                "{}",
+                json!({"replay": path, "reproduced": true, "oracle": viol.oracle, "detail": viol.detail, "event_hash": eh,
+                       "same_oracle": v["expect"]["oracle"].as_str() == Some(viol.oracle.as_str()),
+                       "same_event_hash": v["expect"]["event_hash"].as_str() == Some(eh.as_str())})
+            );
+            println!("VIOLATION property={} replay={}", case.property, path);
+            1
+        }
+        None => {
+            println!("{}", json!({"replay": path, "reproduced": false, "event_hash": eh, "skipped": rep.skipped}));
+            0
+        }
+    }
+}
+
+fn cmd_gen(args: &[String]) -> i32 {
+    let prop = arg(args, "--prop").expect("--prop");
+    let seed = arg_u64(args, "--seed", 1);
+    let index = arg_u64(args, "--index", 0);
+    let tier = arg(args, "--tier").unwrap_or("quick");
+    let case = Case::generate(prop, prng::run_seed(seed, index), tier);
+    println!("{}", serde_json::to_string_pretty(&case.to_json()).unwrap());
+    0
+}
+
+fn main() {
+    let args: Vec<String> = std::env::args().skip(1).collect();
+    if args.is_empty() {
+        eprintln!("usage: hctl-sim run|replay|gen ...");
+        std::process::exit(2);
+    }
+    if !simenv::active() {
+        eprintln!("harness error: libsimenv.so is not loaded (LD_PRELOAD)");
+        std::process::exit(2);
+    }
+    exec::install_panic_hook();
+    warm_up();
+    let code = match args[0].as_str() {
+        "run" => cmd_run(&args[1..]),
+        "replay" => cmd_replay(&args[1..]),
+        "gen" => cmd_gen(&args[1..]),
+        other => {
+            eprintln!("unknown command {other}");
+            2
+        }
+    };
+    std::process::exit(code);
+}
